@@ -14,7 +14,10 @@
   `C13_Progress.lean`), "clear_pipes" (`LoaderCache.clear_pipes` next to look-ups, as repaired and as it
   was — `C13_Scan.lean`), "two locks" (`CacheTS.Nest`: the pipeline cache's creator looks up `file_cache` —
   `C13_Nest.lean`, `C13_SpecU.lean`), "add_sys_path, one set operation at a time" (`C13_SysPathF.lean`),
-  "WorldOk for the file loader" (`C13_Resolve.lean`).
+  "WorldOk for the file loader" (`C13_Resolve.lean`), "failed look-ups: what they leave behind" (sources that
+  are malformed — `World.mapping`, the check at the end of `Loader._load_pipeline` — and repaired later: the
+  only thing a failed look-up leaves in any table is the rejected parse in `file_cache`, the OPEN finding
+  `rejected_file_is_remembered`).
 
   Histories are newest-first; "`(e :: h) <:+ H`" reads "at the moment `e` happened the history
   was `h`".
@@ -494,8 +497,8 @@ def exW1 : World := { resolve := fun r => if r.name == "p" then some 0 else none
 def exW2 : World := { exW1 with fileVer := fun _ => 2 }
 
 theorem exW_ok : WorldsOk exW1 [.run 7 0 exRq, .world exW2, .run 7 0 exRq, .clearAll, .run 7 0 exRq] := by
-  have h1 : WorldOk exW1 := worldOk_of_falsy _ (by intro l r r' _ _ hn; simp [World.fresh, exW1, hn])
-  have h2 : WorldOk exW2 := worldOk_of_falsy _ (by intro l r r' _ _ hn; simp [World.fresh, exW2, exW1, hn])
+  have h1 : WorldOk exW1 := worldOk_of_falsy _ (by intro l r r' _ _ hn; simp [World.fresh, World.raw, exW1, hn])
+  have h2 : WorldOk exW2 := worldOk_of_falsy _ (by intro l r r' _ _ hn; simp [World.fresh, World.raw, exW2, exW1, hn])
   refine ⟨h1, ?_⟩
   intro w' hw'
   simp at hw'
@@ -515,6 +518,132 @@ example : (session exW1 LState.init Flags.none
 theorem retaining_client_breaks_clear :
     let st := (execAll exW1 LState.init [.run 7 0 exRq, .world exW2, .clearAll]).2
     (Stack.run exW2 st 7 0 exRq).1.ran = some 2 ∧ (runRetaining exW2 st 7 0 exRq).1.ran = some 1 := by
+  decide +kernel
+
+/-! #### failed look-ups: what they leave behind
+
+"a creator that raises leaves nothing cached so a later look-up tries again", end to end. A look-up
+fails when the source is absent (`PipelineNotFoundError`, a custom loader raising) or when
+`Loader._load_pipeline` rejects a payload that is not a mapping (`PipelineDefinitionError`). -/
+
+/-- `failed_run_leaves_pipeline_caches` — a failed look-up writes nothing to any pipeline cache. -/
+theorem failed_run_leaves_pipeline_caches (w : World) (st : LState) (c l : Nat) (r : Rq)
+    (h : (run w st c l r).1.ran = none) : (run w st c l r).2.pipes = st.pipes := by
+  have ht := run_tables w st c l r
+  simp only at ht
+  rw [ht.2.2.1]
+  rw [ht.2.2.2.2.2.2] at h
+  rcases getPipeline_pipes w (getLoader st l).2.2 (getLoader st l).1 l r with hp | ⟨_, x, hx, _⟩
+  · rw [hp, getLoader_pipes]
+  · rw [hx] at h; cases h
+
+/-- `failed_run_leaves_only_rejected_parse` — what a failed look-up leaves in `file_cache`: nothing,
+    or (file loader, caching on, path not yet cached) exactly the parse of the file the request
+    resolves to, and that parse is one the mapping check rejects. This is the open finding
+    "malformed top level cached before rejection", and the theorem says it is the ONLY way a failed
+    look-up is remembered in the model of the code as it is. -/
+theorem failed_run_leaves_only_rejected_parse (w : World) (st : LState) (c l : Nat) (r : Rq)
+    (h : (run w st c l r).1.ran = none) :
+    (run w st c l r).2.files = st.files ∨
+    (l = 0 ∧ st.noCache = false ∧ ∃ p, w.resolve r = some p ∧ st.files p = none ∧
+      w.mapping (w.fileVer p) = false ∧
+      (run w st c l r).2.files = fun p' => if p' = p then some (w.fileVer p) else st.files p') := by
+  have ht := run_tables w st c l r
+  simp only at ht
+  rw [ht.2.2.2.1]
+  rw [ht.2.2.2.2.2.2] at h
+  have hld := getPipeline_none w (getLoader st l).2.2 (getLoader st l).1 l r h
+  rcases getPipeline_files w (getLoader st l).2.2 (getLoader st l).1 l r with hf | hf
+  · rw [hf]
+    rcases loadDef_files_cases w (getLoader st l).2.2 l r with hc | ⟨hl, hnc, p, hp, hfp, hv, hfiles⟩
+    · left; rw [hc, getLoader_files]
+    · right
+      rw [getLoader_noCache] at hnc
+      rw [getLoader_files] at hfp hfiles
+      refine ⟨hl, hnc, p, hp, hfp, ?_, hfiles⟩
+      rw [hv] at hld
+      cases hm : w.mapping (w.fileVer p)
+      · rfl
+      · simp [World.accept, hm] at hld
+  · left; rw [hf, getLoader_files]
+
+/-- `custom_failure_not_remembered` — for every loader but the file loader: after a failed look-up
+    the next look-up of the same request, on any client object and in whatever world there is then,
+    yields what an uncached look-up yields then: the loader is asked again. -/
+theorem custom_failure_not_remembered (w w' : World) (st : LState) (c c' l : Nat) (r : Rq) (hl : l ≠ 0)
+    (h : (run w st c l r).1.ran = none) :
+    (run w' (run w st c l r).2 c' l r).1.ran = w'.fresh l r := by
+  have ht := run_tables w st c l r
+  simp only at ht
+  obtain ⟨hnc, hlo, hpi, _, _, _, hran⟩ := ht
+  have hk := getPipeline_keeps w (getLoader st l).2.2 (getLoader st l).1 l r
+  rw [hran] at h
+  rw [(run_tables w' _ c' l r).2.2.2.2.2.2]
+  by_cases hn : st.noCache = true
+  · apply (getPipeline_noCache w' _ _ l r _).1
+    rw [getLoader_noCache, hnc, hk.1, getLoader_noCache]; exact hn
+  · have hn' : st.noCache = false := by simpa using hn
+    have hreg := getLoader_registered st l hn'
+    have hnc2 : (run w st c l r).2.noCache = false := by rw [hnc, hk.1, getLoader_noCache]; exact hn'
+    have hlo2 : (run w st c l r).2.loaders l = some (getLoader st l).1 := by rw [hlo, hk.2.1]; exact hreg
+    have hg : getLoader (run w st c l r).2 l = ((getLoader st l).1, false, (run w st c l r).2) := by
+      simp [getLoader, hnc2, hlo2]
+    rw [hg]
+    -- the first look-up missed and stored nothing
+    have hmiss : (run w st c l r).2.pipes (getLoader st l).1 (Rq.key r) = none := by
+      rw [hpi]
+      rcases getPipeline_pipes w (getLoader st l).2.2 (getLoader st l).1 l r with hp | ⟨_, x, hx, _⟩
+      · rw [hp]
+        have hnc1 : (getLoader st l).2.2.noCache = false := by rw [getLoader_noCache]; exact hn'
+        cases hv : (getLoader st l).2.2.pipes (getLoader st l).1 (Rq.key r) with
+        | none => rfl
+        | some v => simp [getPipeline, hnc1, hv] at h
+      · rw [hx] at h; cases h
+    have hld := (loadDef_custom w' (run w st c l r).2 l r hl).1
+    simp only [getPipeline, hnc2, hmiss]
+    cases hx : (loadDef w' (run w st c l r).2 l r).1 <;> simp [hx, ← hld]
+
+/-- the same answers as the code as it is; a rejected payload is stored nowhere -/
+theorem validating_file_creator_forgets_rejection (w : World) (st : LState) (l : Nat) (r : Rq) :
+    (loadDefV w st l r).1 = (loadDef w st l r).1 ∧ (loadDefV w st l r).2.1 = (loadDef w st l r).2.1 ∧
+    ((loadDefV w st l r).1 = none → (loadDefV w st l r).2.2 = st) := by
+  unfold loadDefV loadDef
+  split
+  · split
+    · simp
+    · split
+      · simp
+      · split
+        · simp
+        · split <;> simp_all [World.accept]
+  · simp
+
+/-! the file `p` holds a list (version 5 is not a mapping), is repaired (version 6) -/
+def exBad1 : World := { exW1 with fileVer := fun _ => 5, mapping := fun v => v != 5 }
+def exBad2 : World := { exBad1 with fileVer := fun _ => 6 }
+
+/-- `rejected_file_is_remembered` — the OPEN finding, in the model of the code as it is: the file is
+    malformed, the look-up is rejected; the file is repaired; the next look-up is rejected again
+    although an uncached look-up would succeed (the pipeline cache is clean — the rejected parse sits
+    in `file_cache`); only `file_cache.clear()` (or `clear_all`) ends it. Clearing the pipeline
+    caches does not. -/
+theorem rejected_file_is_remembered :
+    (session exBad1 LState.init Flags.none
+      [.run 7 0 exRq, .world exBad2, .run 7 0 exRq, .clearPipes none, .run 8 0 exRq, .clearFiles, .run 7 0 exRq]).map
+        (fun x => (x.1.ran, x.1.fileRead, x.2.2)) =
+    [(none, true, none), (none, false, some 6), (none, false, some 6), (some 6, true, some 6)] := by
+  decide +kernel
+
+/-- with the validating file creator the repaired file is read again at once -/
+example : (loadDefV exBad1 LState.init 0 exRq).2.2.files 0 = none ∧
+    (loadDef exBad1 LState.init 0 exRq).2.2.files 0 = some 5 := by decide +kernel
+
+/-- a custom loader's rejected payload is not remembered (hypotheses of `custom_failure_not_remembered`
+    satisfiable: loader 1 answers with a list, then with a mapping) -/
+example :
+    let wb : World := { exW1 with custom := fun _ _ => some 5, mapping := fun v => v != 5 }
+    let wg : World := { wb with custom := fun _ _ => some 6 }
+    (run wb LState.init 7 1 exRq).1.ran = none ∧ (run wg (run wb LState.init 7 1 exRq).2 7 1 exRq).1.ran = some 6 := by
   decide +kernel
 
 end Layers
